@@ -17,7 +17,7 @@ theorem filterMap_ite {β : Type} (l : List Nat) (m : Mask) (f : Nat → β) :
   induction l with
   | nil => rfl
   | cons a l ih =>
-    by_cases h : m a <;> simp [List.filterMap_cons, List.filter_cons, h, ih]
+    by_cases h : m a <;> simp [h, ih]
 
 theorem maskFilter_eq {β : Type} (n : Nat) (m : Mask) (f : Nat → β) :
     maskFilter n m f = (ids n m).map f := filterMap_ite _ _ _
@@ -140,7 +140,7 @@ theorem extent_error {a : Axis} {I : List Nat} {e : XErr} (h : extent a I = .err
     have : I.map a.coord = [] := minOf_eq_none.1 hmin
     simp only [hmin] at h
     refine ⟨List.map_eq_nil_iff.1 this, ?_⟩
-    cases hmax : maxOf (I.map a.coord) <;> simp [hmax] at h <;> exact h.symm
+    cases hmax : maxOf (I.map a.coord) <;> simp at h <;> exact h.symm
   | some mn =>
     cases hmax : maxOf (I.map a.coord) with
     | none =>
